@@ -128,6 +128,7 @@ def run_scenario(pid, sc, tier, seed, catalogue, out):
         d['scenario'] = mod
         d['meta'] = meta
         d['steps'] = traces[d['behaviour']]
+        d['chunked'] = bool(sc.get('chunked'))
     shutil.rmtree(wd, ignore_errors=True)
     return divs
 
@@ -262,7 +263,7 @@ def run_tv(pid, tier, seed, out):
                  'expected': {k.split('.')[0]: r['pred'].get(k.split('.')[0]) for k in fields},
                  'observed': {k.split('.')[0]: obs.get(k.split('.')[0]) for k in fields},
                  'dev': r.get('dev') or [], 'dev_before': r.get('devb') or [], 'scenario': 'trace ' + t['id'],
-                 'meta': t['meta'], 'steps': None, 'pend_types': pend_types,
+                 'meta': t['meta'], 'steps': None, 'pend_types': pend_types, 'chunked': t.get('chunk_seed') is not None,
                  'tv_trace': {'id': t['id'], 'meta': t['meta'], 'steps': [strip_obs(x) for x in t['steps'][:r['at']]]}}
             divs.append(d)
         for pf in r['propfails']:
